@@ -924,6 +924,37 @@ func c02r7(r *R) {
 		for _, vc := range c.valueCases(st.Val, st.Block()) {
 			n++
 			gs, v := vc.Guards, vc.E
+			// `slices.ContainsFunc(chs.Extensions, isSNI)` with a predicate that is the type assertion is the same search
+			found, decided := false, false
+			for _, g := range gs {
+				const pre = "slices.ContainsFunc(p1.Extensions, func:ja4."
+				if len(g) > 1 && strings.HasPrefix(g[1:], pre) && strings.HasSuffix(g, ")") {
+					name := strings.TrimSuffix(g[1+len(pre):], ")")
+					if pf := c.Func("pkg/ja4", name); pf != nil {
+						okPred := true
+						np := 0
+						eachInstr(pf, func(i ssa.Instruction) {
+							if ret, isR := i.(*ssa.Return); isR {
+								np++
+								if c.Expr(ret.Results[0]) != "assert[*tls.SNIExtension](p0)#1" {
+									okPred = false
+								}
+							}
+						})
+						if okPred && np > 0 {
+							found, decided = g[0] == '+', true
+						}
+					}
+				}
+			}
+			if decided {
+				if found {
+					o.Check(v == "100", "with an SNI extension the flag is %s, want 'd'", v)
+				} else {
+					o.Check(v == "105", "without an SNI extension the flag is %s, want 'i'", v)
+				}
+				continue
+			}
 			if hasGuard(gs, "+assert[*tls.SNIExtension]("+extI+")#1") {
 				o.Check(v == "100", "with an SNI extension the flag is %s, want 'd'", v)
 			} else {
